@@ -600,6 +600,18 @@ def gen_model(rng, cfg=None, feats=None):
             functions.append([name, args + [p], expr])
             params[name] = {p: pv}
 
+    # a function that consumes the OUTPUT of another non-auxiliary model function: a constraint
+    # on next period's continuous state (borrowing limit), optionally an auxiliary function of it
+    if cS and (F.get("constraint_params") and rng.random() < 0.5 or rng.random() < 0.12):
+        s_ = str(rng.choice(cS))
+        if f"next_{s_}" not in stochastic and spec[s_]["kind"] == "lin":
+            width = spec[s_]["stop"] - spec[s_]["start"]
+            p = pname()
+            lo = round(spec[s_]["start"] - rnd(rng, 0.15, 0.6) * width, 4)
+            functions.append(["nb_constraint", [f"next_{s_}", p], f"next_{s_} >= {lo} - {p}"])
+            params["nb_constraint"] = {p: rnd(rng, 0.0, 1.0)}
+            realised["consumes_next_output"] = True
+
     order = rng.permutation(len(functions))
     functions = [list(functions[i]) for i in order]
     # shuffle declaration order of states and choices
